@@ -157,16 +157,20 @@ def build(E, c, W, nsrc, nfreq, max_workers, file_dir, gridding='same'):
     kw = dict(SIM_KW)
     if file_dir:
         kw['file_dir'] = file_dir
-    if gridding == 'dict':
+    if gridding in ('dict', 'dict1'):
         # source-dependent computational grids of DIFFERENT size: the
-        # first source gets the smaller one
+        # first source gets the smaller one ('dict1': every pair is computed
+        # on the smaller grid, i.e. consecutive tasks share model AND grid)
         small = E.meshes.TensorMesh([np.array([2., 2., 2.]),
                                      np.array([1., 2., 2.]),
                                      np.array([1., 2., 1.])], (0., 0., 0.))
         srcs, freqs = list(sv.sources), list(sv.frequencies)
-        kw['gridding_opts'] = {s_: {f_: (small if i == 0 else grid)
+        kw['gridding_opts'] = {s_: {f_: (small if i == 0 or
+                                         gridding == 'dict1' else grid)
                                     for f_ in freqs}
                                for i, s_ in enumerate(srcs)}
+        gridding = 'dict'
+
     # discretize's volume-average matrix applied to symbolic vectors (used
     # for the gradient whenever a computational grid is not the model grid)
     import discretize
@@ -403,6 +407,16 @@ def replay(cex):
     grid = emg3d.TensorMesh([np.array([2., 1., 1., 2.])*100,
                              np.array([1., 1., 2., 1.])*100,
                              np.array([1., 2., 1.])*100], (0, 0, 0))
+    # differences in the solver's INPUT (e.g. a missing warm start) show at
+    # tolerance level only: use a grid on which the iteration does not
+    # stagnate at machine precision, and compare bit by bit
+    inputs = str(cex.get('what', '')).startswith('solver inputs') and \
+        cex.get('gridding', 'same') == 'same'
+    if inputs:
+        hh = np.array([2., 1., 1., 2., 2., 1., 1., 2.])*50
+        grid = emg3d.TensorMesh([hh, hh, hh[:4]*2], (0, 0, 0))
+    so = dict(tol=1e-5, tol_gradient=1e-4, maxit=50) if inputs else \
+        dict(tol=1e-8, tol_gradient=1e-5, plain=True, maxit=100)
     src = [emg3d.TxElectricDipole((250.+25*i, 150., 150., 20., 10.))
            for i in range(nsrc)]
     rec = [emg3d.RxElectricPoint((225.+50*i, 250.-25*i, 200.+25*i, 30.*i,
@@ -422,20 +436,20 @@ def replay(cex):
                             mapping=MAPPING)
         kw = dict(file_dir=file_dir) if file_dir else {}
         gridding = cex.get('gridding', 'same')
-        if gridding == 'dict':
+        if gridding in ('dict', 'dict1'):
             small = emg3d.TensorMesh([np.array([2., 2., 2.])*100,
                                       np.array([1., 2., 2.])*100,
                                       np.array([1., 2., 1.])*100], (0, 0, 0))
             kw['gridding_opts'] = {
-                s_: {f_: (small if i == 0 else grid)
+                s_: {f_: (small if i == 0 or gridding == 'dict1' else grid)
                      for f_ in survey.frequencies}
                 for i, s_ in enumerate(survey.sources)}
+            gridding = 'dict'
         sim = emg3d.Simulation(
             survey, model, gridding=gridding, max_workers=max_workers,
             verb=0,
             receiver_interpolation='linear', tqdm_opts=False,
-            solver_opts=dict(tol=1e-8, tol_gradient=1e-5, plain=True,
-                             maxit=100), **kw)
+            solver_opts=dict(so), **kw)
         old = _mp.tqdm
         if not tq:
             _mp.tqdm = None
@@ -586,6 +600,16 @@ def replay_slots(cex):
     grid = emg3d.TensorMesh([np.array([2., 1., 1., 2.])*100,
                              np.array([1., 1., 2., 1.])*100,
                              np.array([1., 2., 1.])*100], (0, 0, 0))
+    # differences in the solver's INPUT (e.g. a missing warm start) show at
+    # tolerance level only: use a grid on which the iteration does not
+    # stagnate at machine precision, and compare bit by bit
+    inputs = str(cex.get('what', '')).startswith('solver inputs') and \
+        cex.get('gridding', 'same') == 'same'
+    if inputs:
+        hh = np.array([2., 1., 1., 2., 2., 1., 1., 2.])*50
+        grid = emg3d.TensorMesh([hh, hh, hh[:4]*2], (0, 0, 0))
+    so = dict(tol=1e-5, tol_gradient=1e-4, maxit=50) if inputs else \
+        dict(tol=1e-8, tol_gradient=1e-5, plain=True, maxit=100)
     src = [emg3d.TxElectricDipole((250.+25*i, 150., 150., 20., 10.))
            for i in range(nsrc)]
     rec = [emg3d.RxElectricPoint((225.+50*i, 250.-25*i, 200.+25*i, 30.*i,
@@ -657,7 +681,8 @@ def main(tier):
         extra = [(3, 1, False, True, 0), (1, 3, True, False, 1),
                  (2, 1, False, False, 2, 'dict'),
                  (2, 1, True, True, 0, 'dict'),
-                 (2, 1, True, False, 1, 'dict')]
+                 (2, 1, True, False, 1, 'dict'),
+                 (1, 2, False, False, 0, 'dict1')]
     else:
         shapes = [(3, 1), (1, 3), (2, 2)]
         # (all 6^3 combinations of completion orders of the three pool
